@@ -1,7 +1,7 @@
 """Property -> rules registry (DESIGN.md sections 0, 4, 5)."""
 import copy
 
-from rules import x_emit, x_macro, x_range, x_split, g_args, g_tail, p_errors, g_thread, g_cover, g_alt, g_struct, g_lex, k_keywords, t_tree, x_pp, x_calls, w_api, s_state, p_panic
+from rules import x_incname, x_emit, x_macro, x_range, x_split, g_args, g_tail, p_errors, g_thread, g_cover, g_alt, g_struct, g_lex, k_keywords, t_tree, x_pp, x_calls, w_api, s_state, p_panic
 
 TRUSTED_BASE = [
     'rustc front end / MIR construction (nightly 1.97) and syn 2 as parsers of the Rust sources',
@@ -14,7 +14,7 @@ _cache = {}
 
 MODULES = {
     'g_thread': g_thread.run, 'g_cover': g_cover.run, 'g_alt': g_alt.run, 'g_struct': g_struct.run,
-    'x_emit': x_emit.run, 'x_macro': x_macro.run, 'x_range': x_range.run, 'x_split': x_split.run, 'g_args': g_args.run, 'g_tail': g_tail.run, 'p_errors': p_errors.run, 'g_lex': g_lex.run, 's_state': s_state.run, 'p_panic': p_panic.run,
+    'x_incname': x_incname.run, 'x_emit': x_emit.run, 'x_macro': x_macro.run, 'x_range': x_range.run, 'x_split': x_split.run, 'g_args': g_args.run, 'g_tail': g_tail.run, 'p_errors': p_errors.run, 'g_lex': g_lex.run, 's_state': s_state.run, 'p_panic': p_panic.run,
     'k_keywords': k_keywords.run, 't_tree': t_tree.run, 'x_pp': x_pp.run, 'x_calls': x_calls.run, 'w_api': w_api.run,
 }
 # rule id -> module that computes it
@@ -30,7 +30,7 @@ RULE_HOME = {
     'W1': 'w_api', 'W2': 'w_api', 'W3': 'w_api', 'W4': 'w_api', 'W5': 'w_api', 'W6': 'w_api',
     'G2': 'g_lex', 'G4': 'g_lex',
     'S1': 's_state', 'S2': 's_state', 'S3': 's_state', 'S4': 's_state', 'S5': 's_state', 'S6': 's_state', 'S7': 's_state',
-    'P1': 'p_panic', 'X4': 'x_emit', 'X13': 'x_macro', 'X14': 'x_macro', 'X15': 'x_macro', 'X16': 'x_macro', 'X17': 'x_range', 'X20': 'x_range', 'X18': 'x_split', 'X19': 'x_split', 'G6t': 'g_alt', 'G16': 'g_args', 'G17': 'g_args', 'G18': 'g_args', 'G22': 'g_args', 'G19': 'g_tail', 'G20': 'g_tail', 'G23': 'g_tail', 'P3': 'p_errors',
+    'P1': 'p_panic', 'X4': 'x_emit', 'X13': 'x_macro', 'X14': 'x_macro', 'X15': 'x_macro', 'X16': 'x_macro', 'X17': 'x_range', 'X20': 'x_range', 'X21': 'x_incname', 'X18': 'x_split', 'X19': 'x_split', 'G6t': 'g_alt', 'G16': 'g_args', 'G17': 'g_args', 'G18': 'g_args', 'G22': 'g_args', 'G19': 'g_tail', 'G20': 'g_tail', 'G23': 'g_tail', 'P3': 'p_errors',
 }
 
 
@@ -168,7 +168,7 @@ PROPS = {
         'technique': 'call-graph SCC + per-edge counter transfer analysis (ranking argument)',
     },
     'C10': {
-        'rules': [rule('X9'), rule('X10'), rule('X11'), rule('X12'), rule('X16'), rule('P2'), rule('P3')],
+        'rules': [rule('X9'), rule('X10'), rule('X11'), rule('X12'), rule('X16'), rule('X21'), rule('P2'), rule('P3')],
         'explanation': 'The live define table goes into the nested run and the returned table is adopted, the included text is merged '
                        '(X9, X10); a failing included run is wrapped in Error::Include and a missing file is File{path tried} (X10, '
                        'P2); nothing opens or probes a file unless the arm guard `!ignore_include` holds (X11); flags are forwarded '
